@@ -31,6 +31,11 @@ type VPtr struct {
 	Key  string
 	Raw  bool // formed from unsafe.Pointer/uintptr arithmetic
 	Idx  *Term // element index into a global table cell
+	// Orig/OrigT: this raw pointer was made by converting the address of a Go-typed slice or string
+	// FIELD (heap class Orig, type OrigT) to unsafe.Pointer; a header view of it ((*sliceHeader)(p).data)
+	// then reads the words of that very field
+	Orig  string
+	OrigT types.Type
 }
 
 // Cell is a local (ssa.Alloc) or global variable that is modelled by value.
